@@ -421,6 +421,7 @@ func main() {
 	budget := flag.Int("budget", 0, "override exploration budget, seconds")
 	noMin := flag.Bool("nomin", false, "do not minimise")
 	noEvidence := flag.Bool("noevidence", false, "do not write the evidence file (sensitivity runs)")
+	buildOnly := flag.Bool("buildonly", false, "build the property's engine (warming the build cache) and exit")
 	flag.Parse()
 	spec, ok := props[*prop]
 	if !ok {
@@ -455,6 +456,9 @@ func main() {
 	fmt.Printf("VERIF_SEED=%d property=%s tier=%s engine=%s\n", master, *prop, *tier, spec.Engine)
 	start := time.Now()
 	bin := buildEngine(spec.Engine)
+	if *buildOnly {
+		return
+	}
 	runDir := filepath.Join(buildDir(), "run", fmt.Sprintf("%s-%d", *prop, os.Getpid()))
 	os.MkdirAll(runDir, 0755)
 	defer os.RemoveAll(runDir)
